@@ -102,3 +102,31 @@ def c02_charges(prop, tier, seed):
         out["violations"].append({"obligation": f"{prop}/table:c02_charges", "replay": _viol(prop, "c02_charges", bad),
                                   "reproduced": True, "text": f"{bad[0]}"})
     return out
+
+
+def c01_provenance(prop, tier, seed):
+    t = cache.get("ff_provenance")
+    cells = sum(v["cells"] for v in t.values())
+    bad = [{"ff": ff, "cell": b, "generator": "ff_provenance"} for ff, v in t.items() for b in v["bad"]]
+    bad += [{"ff": ff, "negative_radius": b, "generator": "ff_provenance"} for ff, v in t.items() for b in v["negative_radius"]]
+    c = cache.get("ff_charges")
+    runs = 0
+    for k, v in sorted(c.items()):
+        if not v.get("ok"):
+            continue
+        runs += 1
+        for w in v.get("param_mismatch", []):
+            bad.append({"cell": k, "atom": w, "generator": "ff_charges"})
+        if v["n_written"] + v["all_missing"] != v["n_model"]:
+            bad.append({"cell": k, "why": "written + unassigned != atoms of the model", "n_written": v["n_written"],
+                        "unassigned": v["all_missing"], "n_model": v["n_model"], "generator": "ff_charges"})
+    out = {"name": "c01_provenance_table", "evaluations": cells + runs, "obligations": cells + runs,
+           "discharged": cells + runs - len(bad), "counts_as_obligations": False, "violations": [], "undecided": [],
+           "errors": [], "exhaustive": True,
+           "summary": f"{cells} map cells of the six shipped force fields traced to .DAT rows; {runs} pipeline runs whose "
+                      f"every written atom carries its resolved row; {len(bad)} mismatches",
+           "assumptions": ["X: complete for the shipped .DAT/.names files; user-supplied .names regex semantics are not covered"]}
+    if bad:
+        out["violations"].append({"obligation": f"{prop}/table:c01_provenance", "replay": _viol(prop, "c01_provenance", bad),
+                                  "reproduced": True, "text": f"{bad[0]}"})
+    return out
